@@ -125,6 +125,27 @@ def check_property_file(pid):
         raise CoqError('could not match Print Assumptions output for %s (%d blocks, %d commands)' % (pid, len(blocks), len(printed)))
     return theorems, printed, assumptions
 
+def coqchk(pid, timeout=1800):
+    """Re-check Properties/<pid>.vo and everything it depends on with the independent checker; returns
+    (ok, axioms, summary text)."""
+    r = subprocess.run(['timeout', str(timeout), 'coqchk', '-silent', '-o', '-Q', 'theories', 'YP', 'YP.Properties.' + pid],
+                       cwd=COQ, capture_output=True, text=True)
+    out = r.stdout + r.stderr
+    i = out.find('CONTEXT SUMMARY')
+    summary = out[i:] if i >= 0 else out[-2000:]
+    axioms = []
+    m = re.search(r'\* Axioms:(.*?)(?=\n\* |\Z)', summary, re.S)
+    if m:
+        body = m.group(1).strip()
+        if body != '<none>':
+            axioms = [l.strip() for l in body.split('\n') if l.strip()]
+    unsafe = []
+    for key in ('type-in-type', 'unsafe (co)fixpoints', 'positivity is assumed'):
+        m2 = re.search(re.escape(key) + r':(.*?)(?=\n\* |\Z)', summary, re.S)
+        if m2 and m2.group(1).strip() != '<none>':
+            unsafe.append(key + ': ' + m2.group(1).strip()[:200])
+    return (r.returncode == 0 and not unsafe), axioms, summary.strip()
+
 HEADER = '''From Coq Require Import String List ZArith NArith Bool.
 Import ListNotations.
 From YP Require Import Base.Str Term.Term.
@@ -136,19 +157,10 @@ Local Open Scope string_scope.
 
 _RESULT = re.compile(r'^\s*=\s*"(.*)"(?:%string)?\s*$')
 
-def _run_file(args):
-    idx, path, n, timeout = args
-    r = subprocess.run(['timeout', str(timeout), 'coqc', '-Q', os.path.join(COQ, 'theories'), 'YP',
-                        '-w', '-all', path], capture_output=True, text=True, cwd=os.path.dirname(path))
-    if r.returncode != 0:
-        raise CoqError('evaluation of %s failed (exit %d):\n%s' % (path, r.returncode, (r.stdout[-1500:] + r.stderr[-3000:])))
-    res = []
-    for line in r.stdout.split('\n'):
-        m = _RESULT.match(line)
-        if m:
-            res.append(m.group(1))
-    if len(res) != n:
-        raise CoqError('expected %d results from %s, got %d\n%s' % (n, path, len(res), r.stdout[-2000:]))
+class CoqTimeout(Exception):
+    pass
+
+def _cleanup_file(path):
     for p in (path, path[:-2] + '.vo', path[:-2] + '.glob', path[:-2] + '.vok', path[:-2] + '.vos'):
         try:
             os.remove(p)
@@ -159,34 +171,73 @@ def _run_file(args):
         os.remove(aux)
     except OSError:
         pass
+
+def _run_file(args):
+    idx, path, n, timeout = args
+    r = subprocess.run(['timeout', str(timeout), 'coqc', '-Q', os.path.join(COQ, 'theories'), 'YP',
+                        '-w', '-all', path], capture_output=True, text=True, cwd=os.path.dirname(path))
+    if r.returncode in (124, 137):
+        _cleanup_file(path)
+        return idx, None            # too slow: the caller evaluates the expressions of this file one by one
+    if r.returncode != 0:
+        raise CoqError('evaluation of %s failed (exit %d):\n%s' % (path, r.returncode, (r.stdout[-1500:] + r.stderr[-3000:])))
+    res = []
+    for line in r.stdout.split('\n'):
+        m = _RESULT.match(line)
+        if m:
+            res.append(m.group(1))
+    if len(res) != n:
+        raise CoqError('expected %d results from %s, got %d\n%s' % (n, path, len(res), r.stdout[-2000:]))
+    _cleanup_file(path)
     return idx, res
 
-def eval_exprs(exprs, imports, chunk=200, timeout=1800, tag='cases'):
-    """Evaluate Gallina expressions of type obs; returns the parsed observations."""
+MODEL_TIMEOUTS = [0]
+
+def eval_exprs(exprs, imports, chunk=200, timeout=None, tag='cases'):
+    """Evaluate Gallina expressions of type obs; returns the parsed observations.  An expression whose
+    evaluation inside Coq does not finish within the time limit yields None (the case is then not compared
+    with the model; the number of such cases is reported in the evidence)."""
     if not exprs:
         return []
+    file_timeout = timeout or int(os.environ.get('VERIF_COQ_FILE_TIMEOUT', '240'))
+    single_timeout = int(os.environ.get('VERIF_COQ_CASE_TIMEOUT', '60'))
     wd = workdir()
     imp = '\n'.join('From YP Require Import %s.' % i for i in imports)
-    jobs = []
     nfiles = max(1, min((len(exprs) + chunk - 1) // chunk, 4096))
     if nfiles < COQ_JOBS and len(exprs) >= 40 * COQ_JOBS:
         nfiles = COQ_JOBS
     chunk = (len(exprs) + nfiles - 1) // nfiles
-    for k in range(nfiles):
-        part = exprs[k * chunk:(k + 1) * chunk]
-        if not part:
-            continue
-        path = os.path.join(wd, '%s_%d_%d.v' % (tag, os.getpid(), k))
+    serial = [0]
+    def write(part):
+        serial[0] += 1
+        path = os.path.join(wd, '%s_%d_%d.v' % (tag, os.getpid(), serial[0]))
         with open(path, 'w') as f:
             f.write(HEADER % imp)
             for e in part:
                 f.write('Eval vm_compute in show (%s).\n' % e)
-        jobs.append((k, path, len(part), timeout))
-    results = {}
+        return path
+    jobs = []
+    spans = {}
+    for k in range(nfiles):
+        lo, hi = k * chunk, min(len(exprs), (k + 1) * chunk)
+        if lo >= hi:
+            continue
+        spans[k] = (lo, hi)
+        jobs.append((k, write(exprs[lo:hi]), hi - lo, file_timeout))
+    out = [None] * len(exprs)
+    slow = []
     with concurrent.futures.ThreadPoolExecutor(max_workers=COQ_JOBS) as ex:
         for idx, res in ex.map(_run_file, jobs):
-            results[idx] = res
-    out = []
-    for k in sorted(results):
-        out.extend(terms.parse_obs(s) for s in results[k])
+            lo, hi = spans[idx]
+            if res is None:
+                slow.extend(range(lo, hi))
+            else:
+                out[lo:hi] = [terms.parse_obs(x) for x in res]
+        if slow:
+            jobs2 = [(i, write([exprs[i]]), 1, single_timeout) for i in slow]
+            for i, res in ex.map(_run_file, jobs2):
+                if res is None:
+                    MODEL_TIMEOUTS[0] += 1
+                else:
+                    out[i] = terms.parse_obs(res[0])
     return out
